@@ -376,12 +376,46 @@ Proof.
   cbn [rapp no_reports r_deletions r_process r_step app]. rewrite Hdel, Hp2, Hs2. auto.
 Qed.
 
-(* in general: in the order an update is applied in, no value update comes before an _add (or any other
-   structural key) and no _delete comes before a value update *)
+(* the mothers of an update: the keys its '_divide' operations divide *)
+Lemma mothers_in (ops : list (sop D)) m : In m (mothers D ops) <-> exists ds ch, In (OpDivide D m ds ch) ops.
+Proof.
+  unfold mothers. rewrite in_flat_map. split.
+  - intros (o & Ho & Hm). destruct o; cbn in Hm; try contradiction.
+    destruct Hm as [<-|[]]. eexists _, _. exact Ho.
+  - intros (ds & ch & Ho). exists (OpDivide D m ds ch). split; [exact Ho|left; reflexivity].
+Qed.
+
+Lemma existsb_eqb_in (k : key) ms : existsb (N.eqb k) ms = true <-> In k ms.
+Proof.
+  rewrite existsb_exists. split.
+  - intros (x & Hx & He). apply N.eqb_eq in He. subst x. exact Hx.
+  - intros Hk. exists k. split; [exact Hk|apply N.eqb_refl].
+Qed.
+
+Lemma op_rank_upd_mother (ms : list key) k v : In k ms -> op_rank D ms (OpUpd D k v) = 3%nat.
+Proof. intros Hk. cbn [op_rank]. rewrite (proj2 (existsb_eqb_in k ms) Hk). reflexivity. Qed.
+
+Lemma op_rank_upd_other (ms : list key) k v : ~ In k ms -> op_rank D ms (OpUpd D k v) = 5%nat.
+Proof.
+  intros Hk. cbn [op_rank]. destruct (existsb (N.eqb k) ms) eqn:E; [|reflexivity].
+  apply existsb_eqb_in in E. contradiction.
+Qed.
+
+Lemma in_mothers_dec (ms : list key) k : In k ms \/ ~ In k ms.
+Proof.
+  destruct (existsb (N.eqb k) ms) eqn:E.
+  - left. apply existsb_eqb_in. exact E.
+  - right. intros Hk. apply existsb_eqb_in in Hk. congruence.
+Qed.
+
+(* in general: in the order an update is applied in, no value update comes before an _add, a _move or a
+   _generate, none comes before a _divide but the entry of a mother the update divides, and no _delete
+   comes before a value update *)
 Theorem order_ops_upd_position (ops : list (sop D)) i j : (i < j < length (order_ops D ops))%nat ->
   (forall k v, nth i (order_ops D ops) (OpDelete D 0%N) = OpUpd D k v ->
      match nth j (order_ops D ops) (OpDelete D 0%N) with
      | OpUpd _ _ _ | OpDelete _ _ | OpDeletePath _ _ => True
+     | OpDivide _ _ _ _ => In k (mothers D ops)
      | _ => False
      end) /\
   (forall k v, nth j (order_ops D ops) (OpDelete D 0%N) = OpUpd D k v ->
@@ -391,8 +425,77 @@ Theorem order_ops_upd_position (ops : list (sop D)) i j : (i < j < length (order
      end).
 Proof.
   intros Hij. pose proof (order_ops_sorted D ops i j Hij) as Hs. split; intros k v He; rewrite He in Hs.
-  - destruct (nth j (order_ops D ops) (OpDelete D 0%N)); cbn [op_rank] in Hs; try exact I; lia.
-  - destruct (nth i (order_ops D ops) (OpDelete D 0%N)); cbn [op_rank] in Hs; try exact I; lia.
+  - destruct (in_mothers_dec (mothers D ops) k) as [Hk|Hk].
+    + rewrite (op_rank_upd_mother _ k v Hk) in Hs.
+      destruct (nth j (order_ops D ops) (OpDelete D 0%N)); cbn [op_rank] in Hs; try exact I; try exact Hk; lia.
+    + rewrite (op_rank_upd_other _ k v Hk) in Hs.
+      destruct (nth j (order_ops D ops) (OpDelete D 0%N)); cbn [op_rank] in Hs; try exact I; lia.
+  - destruct (in_mothers_dec (mothers D ops) k) as [Hk|Hk];
+      [rewrite (op_rank_upd_mother _ k v Hk) in Hs|rewrite (op_rank_upd_other _ k v Hk) in Hs];
+      destruct (nth i (order_ops D ops) (OpDelete D 0%N)); cbn [op_rank] in Hs; try exact I; lia.
+Qed.
+
+(* a '_divide' of the applied order divides one of the mothers of the update *)
+Lemma order_ops_divide_mother (ops : list (sop D)) j m ds ch : (j < length (order_ops D ops))%nat ->
+  nth j (order_ops D ops) (OpDelete D 0%N) = OpDivide D m ds ch -> In m (mothers D ops).
+Proof.
+  intros Hj He. apply mothers_in. exists ds, ch.
+  apply (Permutation_in _ (order_ops_perm D ops)). rewrite <- He. apply nth_In. exact Hj.
+Qed.
+
+(* the entry of a child that the same update divides is applied before her division (she is still there) *)
+Theorem order_ops_mother_before_divide (ops : list (sop D)) i j m v ds ch :
+  (i < length (order_ops D ops))%nat -> (j < length (order_ops D ops))%nat ->
+  nth i (order_ops D ops) (OpDelete D 0%N) = OpUpd D m v ->
+  nth j (order_ops D ops) (OpDelete D 0%N) = OpDivide D m ds ch ->
+  (i < j)%nat.
+Proof.
+  intros Hi Hj Ei Ej. pose proof (order_ops_divide_mother ops j m ds ch Hj Ej) as Hm.
+  destruct (Nat.lt_trichotomy i j) as [Hlt|[->|Hgt]]; [exact Hlt| |].
+  - rewrite Ei in Ej. discriminate Ej.
+  - pose proof (order_ops_sorted D ops j i (conj Hgt Hi)) as Hs. rewrite Ei, Ej in Hs.
+    rewrite (op_rank_upd_mother _ m v Hm) in Hs. cbn [op_rank] in Hs. lia.
+Qed.
+
+(* the entries of the other children are applied after every '_divide' *)
+Theorem order_ops_other_upd_after_divide (ops : list (sop D)) i j k v m ds ch :
+  (i < length (order_ops D ops))%nat -> (j < length (order_ops D ops))%nat ->
+  nth i (order_ops D ops) (OpDelete D 0%N) = OpUpd D k v -> ~ In k (mothers D ops) ->
+  nth j (order_ops D ops) (OpDelete D 0%N) = OpDivide D m ds ch ->
+  (j < i)%nat.
+Proof.
+  intros Hi Hj Ei Hk Ej.
+  destruct (Nat.lt_trichotomy i j) as [Hlt|[->|Hgt]]; [| |exact Hgt].
+  - pose proof (order_ops_sorted D ops i j (conj Hlt Hj)) as Hs. rewrite Ei, Ej in Hs.
+    rewrite (op_rank_upd_other _ k v Hk) in Hs. cbn [op_rank] in Hs. lia.
+  - rewrite Ei in Ej. discriminate Ej.
+Qed.
+
+(* the pinned order (for the record): the entry of the mother came after her division -- and was dropped,
+   because she was no longer there (upd_missing_skipped) *)
+Theorem order_ops_pinned_mother_after_divide (ops : list (sop D)) i j m v ds ch :
+  (i < length (order_ops_pinned D ops))%nat -> (j < length (order_ops_pinned D ops))%nat ->
+  nth i (order_ops_pinned D ops) (OpDelete D 0%N) = OpUpd D m v ->
+  nth j (order_ops_pinned D ops) (OpDelete D 0%N) = OpDivide D m ds ch ->
+  (j < i)%nat.
+Proof.
+  intros Hi Hj Ei Ej.
+  destruct (Nat.lt_trichotomy i j) as [Hlt|[->|Hgt]]; [| |exact Hgt].
+  - pose proof (order_ops_pinned_sorted D ops i j (conj Hlt Hj)) as Hs. rewrite Ei, Ej in Hs.
+    cbn [op_rank_pinned] in Hs. lia.
+  - rewrite Ei in Ej. discriminate Ej.
+Qed.
+
+(* the two orders differ: the pinned order divides the mother first, the repaired one updates her first *)
+Theorem order_ops_pinned_refuted (m : key) (v : tree Z) ds ch :
+  order_ops_pinned D [OpUpd D m v; OpDivide D m ds ch] = [OpDivide D m ds ch; OpUpd D m v] /\
+  order_ops_pinned D [OpDivide D m ds ch; OpUpd D m v] = [OpDivide D m ds ch; OpUpd D m v] /\
+  order_ops D [OpUpd D m v; OpDivide D m ds ch] = [OpUpd D m v; OpDivide D m ds ch] /\
+  order_ops D [OpDivide D m ds ch; OpUpd D m v] = [OpUpd D m v; OpDivide D m ds ch].
+Proof.
+  split; [reflexivity|]. split; [reflexivity|].
+  unfold order_ops, mothers. cbn [flat_map app fold_left insert_op op_rank existsb].
+  rewrite N.eqb_refl. cbn. split; reflexivity.
 Qed.
 
 End UpdKit.
@@ -456,6 +559,10 @@ Print Assumptions upd_after_add_lands.
 Print Assumptions upd_before_delete_order.
 Print Assumptions upd_before_delete.
 Print Assumptions order_ops_upd_position.
+Print Assumptions order_ops_mother_before_divide.
+Print Assumptions order_ops_other_upd_after_divide.
+Print Assumptions order_ops_pinned_mother_after_divide.
+Print Assumptions order_ops_pinned_refuted.
 Print Assumptions ex_add_upd.
 Print Assumptions ex_add_upd_orders.
 Print Assumptions ex_upd_missing.
